@@ -15,6 +15,7 @@ CONSTANTS
   PeerFaults <- Faults2
   DeadlineBeforeLock = FALSE
   NoGuard = FALSE
+  GuardPerClient = FALSE
   RearmPerRead = FALSE
   NoCloseOnError = FALSE
 CHECK_DEADLOCK FALSE
